@@ -224,3 +224,587 @@ Theorem C12_example :
   sp [ev1; ev2] = sp [ev2; ev1].
 Proof. exact c12_example. Qed.
 Print Assumptions C12_example.
+
+From Coq Require Import QArith.
+From SX Require Import Model.FlowQ Gen.GenFlowEst Proofs.C12_Source.
+
+(* ---------------- the hand models against the functions regenerated from the Python source ----------------
+   Gen/GenFlowEst.v is written by tools/py2coq/gen_flowest.py from the current ReactionPlaneFlow.py, ScalarProductFlow.py,
+   EventPlaneFlow.py (whole method bodies, exact arithmetic, no non-finite floats); src_* are the leaf functions the source
+   computes per particle (Proofs/C12_Source.v).  A change of a formula, comparison, constant, index or statement order in
+   the translated methods changes the regenerated term and these theorems stop checking. *)
+(* ReactionPlaneFlow.integrated_flow: the hand model is the regenerated method body (None = division by a zero total weight) *)
+Theorem C12_source_rp_integrated :
+  forall (K : Type) (k0 k1 : K) (kadd kmul ksub : K -> K -> K) (kopp kinv ksqrt kabs : K -> K) (kis0 : K -> bool) (kleb kltb : K -> K -> bool),
+       ring_theory k0 k1 kadd kmul ksub kopp eq ->
+       forall (D : Type) (pt rap eta : D -> K) (wt : D -> option K) (cosAB obs : cpx K -> cpx K -> K) (res_fun : K -> K) 
+         (n : nat) (weight_ : string) (gap : K) (evs : list (list (FlowRP.part K D))),
+       rp_integrated K k0 kadd kmul kinv kis0 D
+         (src_rp_pwt K k0 k1 kadd kmul ksub kopp kinv ksqrt kabs kis0 kleb kltb D pt rap eta wt cosAB obs res_fun n weight_ gap) evs =
+       (if kis0 (rp_total K k0 k1 kadd kmul ksub kopp kinv ksqrt kabs kis0 kleb kltb D pt rap eta wt cosAB obs res_fun n weight_ gap evs)
+        then None
+        else
+         Some (gen_rp_integrated_flow K k0 k1 kadd kmul ksub kopp kinv ksqrt kabs kis0 kleb kltb D pt rap eta wt cosAB obs res_fun n weight_ gap evs)).
+Proof. exact source_rp_integrated. Qed.
+Print Assumptions C12_source_rp_integrated.
+
+(* ReactionPlaneFlow.__differential_flow_calculation applied to the binned events = the hand model's value of every bin *)
+Theorem C12_source_rp_differential :
+  forall (K : Type) (k0 k1 : K) (kadd kmul ksub : K -> K -> K) (kopp kinv ksqrt kabs : K -> K) (kis0 : K -> bool) (kleb kltb : K -> K -> bool),
+       ring_theory k0 k1 kadd kmul ksub kopp eq ->
+       forall (D : Type) (pt rap eta : D -> K) (wt : D -> option K) (cosAB obs : cpx K -> cpx K -> K) (res_fun : K -> K) 
+         (n : nat) (weight_ : string) (gap : K) (tests : list (D -> bool)) (evs : list (list (FlowRP.part K D))),
+       gen_rp_differential_flow_calculation K k0 k1 kadd kmul ksub kopp kinv ksqrt kabs kis0 kleb kltb D pt rap eta wt cosAB obs res_fun n weight_
+         gap (map (fun t : D -> bool => map (binned K D t) evs) tests) =
+       map
+         (fun t : D -> bool =>
+          rp_differential_bin K k0 kadd kmul kinv kis0 D
+            (src_rp_pwt K k0 k1 kadd kmul ksub kopp kinv ksqrt kabs kis0 kleb kltb D pt rap eta wt cosAB obs res_fun n weight_ gap) t evs) tests.
+Proof. exact source_rp_differential. Qed.
+Print Assumptions C12_source_rp_differential.
+
+(* ReactionPlaneFlow.differential_flow, body of the loop over the bins: the particles of every event with lo <= val < hi (selector dispatch and comparison operators as in the source) *)
+Theorem C12_source_rp_binning :
+  forall (K : Type) (k0 k1 : K) (kadd kmul ksub : K -> K -> K) (kopp kinv ksqrt kabs : K -> K) (kis0 : K -> bool) (kleb kltb : K -> K -> bool),
+       ring_theory k0 k1 kadd kmul ksub kopp eq ->
+       forall (D : Type) (pt rap eta : D -> K) (wt : D -> option K) (cosAB obs : cpx K -> cpx K -> K) (res_fun : K -> K) 
+         (n : nat) (weight_ : string) (gap : K) (sel : string) (lo hi : K) (evs : list (list (cpx K * D))),
+       gen_rp_bin_events K k0 k1 kadd kmul ksub kopp kinv ksqrt kabs kis0 kleb kltb D pt rap eta wt cosAB obs res_fun n weight_ gap sel lo hi evs =
+       map
+         (binned K D
+            (src_rp_inbin K k0 k1 kadd kmul ksub kopp kinv ksqrt kabs kis0 kleb kltb D pt rap eta wt cosAB obs res_fun n weight_ gap sel lo hi)) evs.
+Proof. exact source_rp_binning. Qed.
+Print Assumptions C12_source_rp_binning.
+
+(* ReactionPlaneFlow.differential_flow for any list of bins (lo, hi): binning followed by __differential_flow_calculation = the model's value of every bin *)
+Theorem C12_source_rp_differential_flow :
+  forall (K : Type) (k0 k1 : K) (kadd kmul ksub : K -> K -> K) (kopp kinv ksqrt kabs : K -> K) (kis0 : K -> bool) (kleb kltb : K -> K -> bool),
+       ring_theory k0 k1 kadd kmul ksub kopp eq ->
+       forall (D : Type) (pt rap eta : D -> K) (wt : D -> option K) (cosAB obs : cpx K -> cpx K -> K) (res_fun : K -> K) 
+         (n : nat) (weight_ : string) (gap : K) (sel : string) (edges : list (K * K)) (evs : list (list (cpx K * D))),
+       gen_rp_differential_flow_calculation K k0 k1 kadd kmul ksub kopp kinv ksqrt kabs kis0 kleb kltb D pt rap eta wt cosAB obs res_fun n weight_
+         gap
+         (map
+            (fun b : K * K =>
+             gen_rp_bin_events K k0 k1 kadd kmul ksub kopp kinv ksqrt kabs kis0 kleb kltb D pt rap eta wt cosAB obs res_fun n weight_ gap sel 
+               (fst b) (snd b) evs) edges) =
+       map
+         (fun b : K * K =>
+          rp_differential_bin K k0 kadd kmul kinv kis0 D
+            (src_rp_pwt K k0 k1 kadd kmul ksub kopp kinv ksqrt kabs kis0 kleb kltb D pt rap eta wt cosAB obs res_fun n weight_ gap)
+            (src_rp_inbin K k0 k1 kadd kmul ksub kopp kinv ksqrt kabs kis0 kleb kltb D pt rap eta wt cosAB obs res_fun n weight_ gap sel 
+               (fst b) (snd b)) evs) edges.
+Proof. exact source_rp_differential_flow. Qed.
+Print Assumptions C12_source_rp_differential_flow.
+
+(* ScalarProductFlow.__compute_particle_weights *)
+Theorem C12_source_sp_weights :
+  forall (K : Type) (k0 k1 : K) (kadd kmul ksub : K -> K -> K) (kopp kinv ksqrt kabs : K -> K) (kis0 : K -> bool) (kleb kltb : K -> K -> bool),
+       ring_theory k0 k1 kadd kmul ksub kopp eq ->
+       forall (D : Type) (pt rap eta : D -> K) (wt : D -> option K) (cosAB obs : cpx K -> cpx K -> K) (res_fun : K -> K) 
+         (n : nat) (weight_ : string) (gap : K) (pd : list (list (cpx K * D))),
+       gen_sp_compute_particle_weights K k0 k1 kadd kmul ksub kopp kinv ksqrt kabs kis0 kleb kltb D pt rap eta wt cosAB obs res_fun n weight_ gap pd =
+       map
+         (map
+            (fun p : FlowRP.part K D =>
+             src_sp_pw K k0 k1 kadd kmul ksub kopp kinv ksqrt kabs kis0 kleb kltb D pt rap eta wt cosAB obs res_fun n weight_ gap (snd p))) pd.
+Proof. exact source_sp_weights. Qed.
+Print Assumptions C12_source_sp_weights.
+
+(* ScalarProductFlow.__compute_flow_vectors = the model's full Q-vectors *)
+Theorem C12_source_sp_flow_vectors :
+  forall (K : Type) (k0 k1 : K) (kadd kmul ksub : K -> K -> K) (kopp kinv ksqrt kabs : K -> K) (kis0 : K -> bool) (kleb kltb : K -> K -> bool),
+       ring_theory k0 k1 kadd kmul ksub kopp eq ->
+       forall (D : Type) (pt rap eta : D -> K) (wt : D -> option K) (cosAB obs : cpx K -> cpx K -> K) (res_fun : K -> K) 
+         (n : nat) (weight_ : string) (gap : K) (pd : list (list (cpx K * D))),
+       gen_sp_compute_flow_vectors K k0 k1 kadd kmul ksub kopp kinv ksqrt kabs kis0 kleb kltb D pt rap eta wt cosAB obs res_fun n weight_ gap pd
+         (map
+            (map
+               (fun p : FlowRP.part K D =>
+                src_sp_pw K k0 k1 kadd kmul ksub kopp kinv ksqrt kabs kis0 kleb kltb D pt rap eta wt cosAB obs res_fun n weight_ gap (snd p))) pd) =
+       map
+         (qfull K k0 kadd kmul D
+            (src_sp_pw K k0 k1 kadd kmul ksub kopp kinv ksqrt kabs kis0 kleb kltb D pt rap eta wt cosAB obs res_fun n weight_ gap)) pd.
+Proof. exact source_sp_flow_vectors. Qed.
+Print Assumptions C12_source_sp_flow_vectors.
+
+(* ScalarProductFlow.__compute_event_angles_sub_events = the model's sub-event Q-vectors (eta >= +gap, eta < -gap as in the source) *)
+Theorem C12_source_sp_sub_events :
+  forall (K : Type) (k0 k1 : K) (kadd kmul ksub : K -> K -> K) (kopp kinv ksqrt kabs : K -> K) (kis0 : K -> bool) (kleb kltb : K -> K -> bool),
+       ring_theory k0 k1 kadd kmul ksub kopp eq ->
+       forall (D : Type) (pt rap eta : D -> K) (wt : D -> option K) (cosAB obs : cpx K -> cpx K -> K) (res_fun : K -> K) 
+         (n : nat) (weight_ : string) (gap : K) (pd : list (list (cpx K * D))),
+       gen_sp_compute_event_angles_sub_events K k0 k1 kadd kmul ksub kopp kinv ksqrt kabs kis0 kleb kltb D pt rap eta wt cosAB obs res_fun n weight_
+         gap pd
+         (map
+            (map
+               (fun p : FlowRP.part K D =>
+                src_sp_pw K k0 k1 kadd kmul ksub kopp kinv ksqrt kabs kis0 kleb kltb D pt rap eta wt cosAB obs res_fun n weight_ gap (snd p))) pd) =
+       (map
+          (qvec K k0 kadd kmul D
+             (src_sp_pw K k0 k1 kadd kmul ksub kopp kinv ksqrt kabs kis0 kleb kltb D pt rap eta wt cosAB obs res_fun n weight_ gap)
+             (src_sp_inA K k0 k1 kadd kmul ksub kopp kinv ksqrt kabs kis0 kleb kltb D pt rap eta wt cosAB obs res_fun n weight_ gap)) pd,
+        map
+          (qvec K k0 kadd kmul D
+             (src_sp_pw K k0 k1 kadd kmul ksub kopp kinv ksqrt kabs kis0 kleb kltb D pt rap eta wt cosAB obs res_fun n weight_ gap)
+             (src_sp_inB K k0 k1 kadd kmul ksub kopp kinv ksqrt kabs kis0 kleb kltb D pt rap eta wt cosAB obs res_fun n weight_ gap)) pd).
+Proof. exact source_sp_sub_events. Qed.
+Print Assumptions C12_source_sp_sub_events.
+
+(* ScalarProductFlow.__compute_u_vectors *)
+Theorem C12_source_sp_u_vectors :
+  forall (K : Type) (k0 k1 : K) (kadd kmul ksub : K -> K -> K) (kopp kinv ksqrt kabs : K -> K) (kis0 : K -> bool) (kleb kltb : K -> K -> bool),
+       ring_theory k0 k1 kadd kmul ksub kopp eq ->
+       forall (D : Type) (pt rap eta : D -> K) (wt : D -> option K) (cosAB obs : cpx K -> cpx K -> K) (res_fun : K -> K) 
+         (n : nat) (weight_ : string) (gap : K) (pd : list (list (cpx K * D))),
+       gen_sp_compute_u_vectors K k0 k1 kadd kmul ksub kopp kinv ksqrt kabs kis0 kleb kltb D pt rap eta wt cosAB obs res_fun n weight_ gap pd =
+       map (map fst) pd.
+Proof. exact source_sp_u_vectors. Qed.
+Print Assumptions C12_source_sp_u_vectors.
+
+(* ScalarProductFlow.__compute_event_plane_resolution: every finite resolution of the model is the regenerated 2 sqrt(mean Re(conj Q_A Q_B)) *)
+Theorem C12_source_sp_resolution :
+  forall (K : Type) (k0 k1 : K) (kadd kmul ksub : K -> K -> K) (kopp kinv ksqrt kabs : K -> K) (kis0 : K -> bool) (kleb kltb : K -> K -> bool),
+       ring_theory k0 k1 kadd kmul ksub kopp eq ->
+       forall (D : Type) (pt rap eta : D -> K) (wt : D -> option K) (cosAB obs : cpx K -> cpx K -> K) (res_fun : K -> K) 
+         (n : nat) (weight_ : string) (gap : K) (evs : list (FlowSP.event K D)) (r : K),
+       sp_resf K k0 k1 kadd kmul ksqrt kis0 kltb
+         (mean K k0 k1 kadd kmul kinv
+            (map
+               (qnsq K k0 kadd kmul ksub kopp D
+                  (src_sp_pw K k0 k1 kadd kmul ksub kopp kinv ksqrt kabs kis0 kleb kltb D pt rap eta wt cosAB obs res_fun n weight_ gap)
+                  (src_sp_inA K k0 k1 kadd kmul ksub kopp kinv ksqrt kabs kis0 kleb kltb D pt rap eta wt cosAB obs res_fun n weight_ gap)
+                  (src_sp_inB K k0 k1 kadd kmul ksub kopp kinv ksqrt kabs kis0 kleb kltb D pt rap eta wt cosAB obs res_fun n weight_ gap)) evs)) =
+       Some r ->
+       gen_sp_compute_event_plane_resolution K k0 k1 kadd kmul ksub kopp kinv ksqrt kabs kis0 kleb kltb D pt rap eta wt cosAB obs res_fun n weight_
+         gap
+         (map
+            (fun e : FlowSP.event K D =>
+             qvec K k0 kadd kmul D
+               (src_sp_pw K k0 k1 kadd kmul ksub kopp kinv ksqrt kabs kis0 kleb kltb D pt rap eta wt cosAB obs res_fun n weight_ gap)
+               (src_sp_inA K k0 k1 kadd kmul ksub kopp kinv ksqrt kabs kis0 kleb kltb D pt rap eta wt cosAB obs res_fun n weight_ gap) 
+               (snd e)) evs)
+         (map
+            (fun e : FlowSP.event K D =>
+             qvec K k0 kadd kmul D
+               (src_sp_pw K k0 k1 kadd kmul ksub kopp kinv ksqrt kabs kis0 kleb kltb D pt rap eta wt cosAB obs res_fun n weight_ gap)
+               (src_sp_inB K k0 k1 kadd kmul ksub kopp kinv ksqrt kabs kis0 kleb kltb D pt rap eta wt cosAB obs res_fun n weight_ gap) 
+               (snd e)) evs) = r.
+Proof. exact source_sp_resolution. Qed.
+Print Assumptions C12_source_sp_resolution.
+
+(* ScalarProductFlow.__compute_flow_particles = the model's per-particle values (self-correlation subtraction, Re(conj u Q), division by the resolution) *)
+Theorem C12_source_sp_flow_particles :
+  forall (K : Type) (k0 k1 : K) (kadd kmul ksub : K -> K -> K) (kopp kinv ksqrt kabs : K -> K) (kis0 : K -> bool) (kleb kltb : K -> K -> bool),
+       ring_theory k0 k1 kadd kmul ksub kopp eq ->
+       forall (D : Type) (pt rap eta : D -> K) (wt : D -> option K) (cosAB obs : cpx K -> cpx K -> K) (res_fun : K -> K) 
+         (n : nat) (weight_ : string) (gap : K) (sc : bool) (r : K) (evs : list (FlowSP.event K D)),
+       gen_sp_compute_flow_particles K k0 k1 kadd kmul ksub kopp kinv ksqrt kabs kis0 kleb kltb D pt rap eta wt cosAB obs res_fun n weight_ gap
+         (map fst evs)
+         (map
+            (map
+               (fun p : FlowRP.part K D =>
+                src_sp_pw K k0 k1 kadd kmul ksub kopp kinv ksqrt kabs kis0 kleb kltb D pt rap eta wt cosAB obs res_fun n weight_ gap (snd p)))
+            (map fst evs))
+         (map
+            (fun e : FlowSP.event K D =>
+             qfull K k0 kadd kmul D
+               (src_sp_pw K k0 k1 kadd kmul ksub kopp kinv ksqrt kabs kis0 kleb kltb D pt rap eta wt cosAB obs res_fun n weight_ gap) 
+               (snd e)) evs) (map (map fst) (map fst evs)) r sc =
+       sp_flow_values K k0 k1 kadd kmul ksub kopp kinv ksqrt kabs kis0 kleb kltb D pt rap eta wt cosAB obs res_fun n weight_ gap sc r evs.
+Proof. exact source_sp_flow_particles. Qed.
+Print Assumptions C12_source_sp_flow_particles.
+
+(* ScalarProductFlow.__calculate_flow_event_average (finite arithmetic) on the model's (weight, value) lists; avg_fin_refines relates it to the model's option-valued average *)
+Theorem C12_source_sp_average :
+  forall (K : Type) (k0 k1 : K) (kadd kmul ksub : K -> K -> K) (kopp kinv ksqrt kabs : K -> K) (kis0 : K -> bool) (kleb kltb : K -> K -> bool),
+       ring_theory k0 k1 kadd kmul ksub kopp eq ->
+       forall (D : Type) (pt rap eta : D -> K) (wt : D -> option K) (cosAB obs : cpx K -> cpx K -> K) (res_fun : K -> K) 
+         (n : nat) (weight_ : string) (gap : K) (val : FlowSP.event K D -> FlowRP.part K D -> K) (evs : list (list (cpx K * D) * list (FlowRP.part K D))),
+       gen_sp_calculate_flow_event_average K k0 k1 kadd kmul ksub kopp kinv ksqrt kabs kis0 kleb kltb D pt rap eta wt cosAB obs res_fun n weight_ gap
+         (map fst evs) (map (fun e : FlowSP.event K D => map (val e) (fst e)) evs) =
+       avg_fin K k0 kmul ksub kinv ksqrt kis0
+         (sums K k0 kadd kmul
+            (map
+               (fun e : FlowSP.event K D =>
+                map
+                  (fun p : cpx K * D =>
+                   (src_sp_pwt K k0 k1 kadd kmul ksub kopp kinv ksqrt kabs kis0 kleb kltb D pt rap eta wt cosAB obs res_fun n weight_ gap (snd p),
+                    val e p)) (fst e)) evs)).
+Proof. exact source_sp_average. Qed.
+Print Assumptions C12_source_sp_average.
+
+(* ScalarProductFlow.differential_flow, body of the loop over the bins *)
+Theorem C12_source_sp_binning :
+  forall (K : Type) (k0 k1 : K) (kadd kmul ksub : K -> K -> K) (kopp kinv ksqrt kabs : K -> K) (kis0 : K -> bool) (kleb kltb : K -> K -> bool),
+       ring_theory k0 k1 kadd kmul ksub kopp eq ->
+       forall (D : Type) (pt rap eta : D -> K) (wt : D -> option K) (cosAB obs : cpx K -> cpx K -> K) (res_fun : K -> K) 
+         (n : nat) (weight_ : string) (gap : K) (sel : string) (lo hi : K) (evs : list (list (cpx K * D))),
+       gen_sp_bin_events K k0 k1 kadd kmul ksub kopp kinv ksqrt kabs kis0 kleb kltb D pt rap eta wt cosAB obs res_fun n weight_ gap sel lo hi evs =
+       map
+         (binned K D
+            (src_sp_inbin K k0 k1 kadd kmul ksub kopp kinv ksqrt kabs kis0 kleb kltb D pt rap eta wt cosAB obs res_fun n weight_ gap sel lo hi)) evs.
+Proof. exact source_sp_binning. Qed.
+Print Assumptions C12_source_sp_binning.
+
+(* ScalarProductFlow.integrated_flow: every finite value and every finite error of the hand model is the result of the regenerated method bodies *)
+Theorem C12_source_sp_integrated :
+  forall (K : Type) (k0 k1 : K) (kadd kmul ksub : K -> K -> K) (kopp kinv ksqrt kabs : K -> K) (kis0 : K -> bool) (kleb kltb : K -> K -> bool),
+       ring_theory k0 k1 kadd kmul ksub kopp eq ->
+       forall (D : Type) (pt rap eta : D -> K) (wt : D -> option K) (cosAB obs : cpx K -> cpx K -> K) (res_fun : K -> K) 
+         (n : nat) (weight_ : string) (gap : K) (sc : bool) (evs : list (FlowSP.event K D)) (v : K) (oe : option K),
+       sp_integrated K k0 k1 kadd kmul ksub kopp kinv ksqrt kabs kis0 kltb D
+         (src_sp_pw K k0 k1 kadd kmul ksub kopp kinv ksqrt kabs kis0 kleb kltb D pt rap eta wt cosAB obs res_fun n weight_ gap)
+         (src_sp_pwt K k0 k1 kadd kmul ksub kopp kinv ksqrt kabs kis0 kleb kltb D pt rap eta wt cosAB obs res_fun n weight_ gap)
+         (src_sp_inA K k0 k1 kadd kmul ksub kopp kinv ksqrt kabs kis0 kleb kltb D pt rap eta wt cosAB obs res_fun n weight_ gap)
+         (src_sp_inB K k0 k1 kadd kmul ksub kopp kinv ksqrt kabs kis0 kleb kltb D pt rap eta wt cosAB obs res_fun n weight_ gap) sc evs =
+       (Some v, oe) ->
+       fst
+         (gen_sp_integrated_flow K k0 k1 kadd kmul ksub kopp kinv ksqrt kabs kis0 kleb kltb D pt rap eta wt cosAB obs res_fun n weight_ gap
+            (map fst evs) (map snd evs) sc) = v /\
+       (forall e : K,
+        oe = Some e ->
+        snd
+          (gen_sp_integrated_flow K k0 k1 kadd kmul ksub kopp kinv ksqrt kabs kis0 kleb kltb D pt rap eta wt cosAB obs res_fun n weight_ gap
+             (map fst evs) (map snd evs) sc) = e).
+Proof. exact source_sp_integrated. Qed.
+Print Assumptions C12_source_sp_integrated.
+
+(* ScalarProductFlow.differential_flow, one bin *)
+Theorem C12_source_sp_differential :
+  forall (K : Type) (k0 k1 : K) (kadd kmul ksub : K -> K -> K) (kopp kinv ksqrt kabs : K -> K) (kis0 : K -> bool) (kleb kltb : K -> K -> bool),
+       ring_theory k0 k1 kadd kmul ksub kopp eq ->
+       forall (D : Type) (pt rap eta : D -> K) (wt : D -> option K) (cosAB obs : cpx K -> cpx K -> K) (res_fun : K -> K) 
+         (n : nat) (weight_ : string) (gap : K) (sel : string) (lo hi : K) (sc : bool) (evs : list (FlowSP.event K D)) (v : K) (oe : option K),
+       sp_differential_bin K k0 k1 kadd kmul ksub kopp kinv ksqrt kabs kis0 kltb D
+         (src_sp_pw K k0 k1 kadd kmul ksub kopp kinv ksqrt kabs kis0 kleb kltb D pt rap eta wt cosAB obs res_fun n weight_ gap)
+         (src_sp_pwt K k0 k1 kadd kmul ksub kopp kinv ksqrt kabs kis0 kleb kltb D pt rap eta wt cosAB obs res_fun n weight_ gap)
+         (src_sp_inA K k0 k1 kadd kmul ksub kopp kinv ksqrt kabs kis0 kleb kltb D pt rap eta wt cosAB obs res_fun n weight_ gap)
+         (src_sp_inB K k0 k1 kadd kmul ksub kopp kinv ksqrt kabs kis0 kleb kltb D pt rap eta wt cosAB obs res_fun n weight_ gap)
+         (src_sp_inbin K k0 k1 kadd kmul ksub kopp kinv ksqrt kabs kis0 kleb kltb D pt rap eta wt cosAB obs res_fun n weight_ gap sel lo hi) sc evs =
+       (Some v, oe) ->
+       fst
+         (gen_sp_differential_bin K k0 k1 kadd kmul ksub kopp kinv ksqrt kabs kis0 kleb kltb D pt rap eta wt cosAB obs res_fun n weight_ gap
+            (gen_sp_bin_events K k0 k1 kadd kmul ksub kopp kinv ksqrt kabs kis0 kleb kltb D pt rap eta wt cosAB obs res_fun n weight_ gap sel lo hi
+               (map fst evs)) (map snd evs) sc) = v /\
+       (forall e : K,
+        oe = Some e ->
+        snd
+          (gen_sp_differential_bin K k0 k1 kadd kmul ksub kopp kinv ksqrt kabs kis0 kleb kltb D pt rap eta wt cosAB obs res_fun n weight_ gap
+             (gen_sp_bin_events K k0 k1 kadd kmul ksub kopp kinv ksqrt kabs kis0 kleb kltb D pt rap eta wt cosAB obs res_fun n weight_ gap sel lo hi
+                (map fst evs)) (map snd evs) sc) = e).
+Proof. exact source_sp_differential. Qed.
+Print Assumptions C12_source_sp_differential.
+
+(* EventPlaneFlow.__compute_particle_weights *)
+Theorem C12_source_ep_weights :
+  forall (K : Type) (k0 k1 : K) (kadd kmul ksub : K -> K -> K) (kopp kinv ksqrt kabs : K -> K) (kis0 : K -> bool) (kleb kltb : K -> K -> bool),
+       ring_theory k0 k1 kadd kmul ksub kopp eq ->
+       forall (D : Type) (pt rap eta : D -> K) (wt : D -> option K) (cosAB obs : cpx K -> cpx K -> K) (res_fun : K -> K) 
+         (n : nat) (weight_ : string) (gap : K) (pd : list (list (cpx K * D))),
+       gen_ep_compute_particle_weights K k0 k1 kadd kmul ksub kopp kinv ksqrt kabs kis0 kleb kltb D pt rap eta wt cosAB obs res_fun n weight_ gap pd =
+       map
+         (map
+            (fun p : FlowRP.part K D =>
+             src_ep_pw K k0 k1 kadd kmul ksub kopp kinv ksqrt kabs kis0 kleb kltb D pt rap eta wt cosAB obs res_fun n weight_ gap (snd p))) pd.
+Proof. exact source_ep_weights. Qed.
+Print Assumptions C12_source_ep_weights.
+
+(* EventPlaneFlow.__compute_flow_vectors *)
+Theorem C12_source_ep_flow_vectors :
+  forall (K : Type) (k0 k1 : K) (kadd kmul ksub : K -> K -> K) (kopp kinv ksqrt kabs : K -> K) (kis0 : K -> bool) (kleb kltb : K -> K -> bool),
+       ring_theory k0 k1 kadd kmul ksub kopp eq ->
+       forall (D : Type) (pt rap eta : D -> K) (wt : D -> option K) (cosAB obs : cpx K -> cpx K -> K) (res_fun : K -> K) 
+         (n : nat) (weight_ : string) (gap : K) (pd : list (list (cpx K * D))),
+       gen_ep_compute_flow_vectors K k0 k1 kadd kmul ksub kopp kinv ksqrt kabs kis0 kleb kltb D pt rap eta wt cosAB obs res_fun n weight_ gap pd
+         (map
+            (map
+               (fun p : FlowRP.part K D =>
+                src_ep_pw K k0 k1 kadd kmul ksub kopp kinv ksqrt kabs kis0 kleb kltb D pt rap eta wt cosAB obs res_fun n weight_ gap (snd p))) pd) =
+       map
+         (qfull K k0 kadd kmul D
+            (src_ep_pw K k0 k1 kadd kmul ksub kopp kinv ksqrt kabs kis0 kleb kltb D pt rap eta wt cosAB obs res_fun n weight_ gap)) pd.
+Proof. exact source_ep_flow_vectors. Qed.
+Print Assumptions C12_source_ep_flow_vectors.
+
+(* EventPlaneFlow.__sum_weights *)
+Theorem C12_source_ep_sum_weights :
+  forall (K : Type) (k0 k1 : K) (kadd kmul ksub : K -> K -> K) (kopp kinv ksqrt kabs : K -> K) (kis0 : K -> bool) (kleb kltb : K -> K -> bool),
+       ring_theory k0 k1 kadd kmul ksub kopp eq ->
+       forall (D : Type) (pt rap eta : D -> K) (wt : D -> option K) (cosAB obs : cpx K -> cpx K -> K) (res_fun : K -> K) 
+         (n : nat) (weight_ : string) (gap : K) (W : list (list K)),
+       gen_ep_sum_weights K k0 k1 kadd kmul ksub kopp kinv ksqrt kabs kis0 kleb kltb D pt rap eta wt cosAB obs res_fun n weight_ gap W =
+       map (fun ws : list K => ksum k0 kadd (map (fun x : K => kmul x x) ws)) W.
+Proof. exact source_ep_sum_weights. Qed.
+Print Assumptions C12_source_ep_sum_weights.
+
+(* EventPlaneFlow.__compute_event_angles_sub_events: the vectors whose arctan2/n is returned = the model's normalised sub-event vectors (division by sqrt(sum w^2), zero guard) *)
+Theorem C12_source_ep_sub_events :
+  forall (K : Type) (k0 k1 : K) (kadd kmul ksub : K -> K -> K) (kopp kinv ksqrt kabs : K -> K) (kis0 : K -> bool) (kleb kltb : K -> K -> bool),
+       ring_theory k0 k1 kadd kmul ksub kopp eq ->
+       forall (D : Type) (pt rap eta : D -> K) (wt : D -> option K) (cosAB obs : cpx K -> cpx K -> K) (res_fun : K -> K) 
+         (n : nat) (weight_ : string) (gap : K) (pd : list (list (cpx K * D))),
+       gen_ep_compute_event_angles_sub_events K k0 k1 kadd kmul ksub kopp kinv ksqrt kabs kis0 kleb kltb D pt rap eta wt cosAB obs res_fun n weight_
+         gap pd
+         (map
+            (map
+               (fun p : FlowRP.part K D =>
+                src_ep_pw K k0 k1 kadd kmul ksub kopp kinv ksqrt kabs kis0 kleb kltb D pt rap eta wt cosAB obs res_fun n weight_ gap (snd p))) pd) =
+       (map
+          (qnorm K k0 kadd kmul kinv ksqrt kis0 D
+             (src_ep_pw K k0 k1 kadd kmul ksub kopp kinv ksqrt kabs kis0 kleb kltb D pt rap eta wt cosAB obs res_fun n weight_ gap)
+             (src_ep_inA K k0 k1 kadd kmul ksub kopp kinv ksqrt kabs kis0 kleb kltb D pt rap eta wt cosAB obs res_fun n weight_ gap)) pd,
+        map
+          (qnorm K k0 kadd kmul kinv ksqrt kis0 D
+             (src_ep_pw K k0 k1 kadd kmul ksub kopp kinv ksqrt kabs kis0 kleb kltb D pt rap eta wt cosAB obs res_fun n weight_ gap)
+             (src_ep_inB K k0 k1 kadd kmul ksub kopp kinv ksqrt kabs kis0 kleb kltb D pt rap eta wt cosAB obs res_fun n weight_ gap)) pd).
+Proof. exact source_ep_sub_events. Qed.
+Print Assumptions C12_source_ep_sub_events.
+
+(* EventPlaneFlow.__compute_u_vectors *)
+Theorem C12_source_ep_u_vectors :
+  forall (K : Type) (k0 k1 : K) (kadd kmul ksub : K -> K -> K) (kopp kinv ksqrt kabs : K -> K) (kis0 : K -> bool) (kleb kltb : K -> K -> bool),
+       ring_theory k0 k1 kadd kmul ksub kopp eq ->
+       forall (D : Type) (pt rap eta : D -> K) (wt : D -> option K) (cosAB obs : cpx K -> cpx K -> K) (res_fun : K -> K) 
+         (n : nat) (weight_ : string) (gap : K) (pd : list (list (cpx K * D))),
+       gen_ep_compute_u_vectors K k0 k1 kadd kmul ksub kopp kinv ksqrt kabs kis0 kleb kltb D pt rap eta wt cosAB obs res_fun n weight_ gap pd =
+       map (map fst) pd.
+Proof. exact source_ep_u_vectors. Qed.
+Print Assumptions C12_source_ep_u_vectors.
+
+(* EventPlaneFlow.__compute_event_plane_resolution: every finite resolution of the model is res_fun(sqrt(mean cos n(Psi_A - Psi_B))) as regenerated (res_fun = the Bessel inversion incl. its fallback, an oracle) *)
+Theorem C12_source_ep_resolution :
+  forall (K : Type) (k0 k1 : K) (kadd kmul ksub : K -> K -> K) (kopp kinv ksqrt kabs : K -> K) (kis0 : K -> bool) (kleb kltb : K -> K -> bool),
+       ring_theory k0 k1 kadd kmul ksub kopp eq ->
+       forall (D : Type) (pt rap eta : D -> K) (wt : D -> option K) (cosAB obs : cpx K -> cpx K -> K) (res_fun : K -> K) 
+         (n : nat) (weight_ : string) (gap : K) (evs : list (FlowSP.event K D)) (r : K),
+       ep_resf K k0 ksqrt kis0 kltb res_fun
+         (mean K k0 k1 kadd kmul kinv
+            (map
+               (rn2 K k0 kadd kmul kinv ksqrt kis0 D
+                  (src_ep_pw K k0 k1 kadd kmul ksub kopp kinv ksqrt kabs kis0 kleb kltb D pt rap eta wt cosAB obs res_fun n weight_ gap)
+                  (src_ep_inA K k0 k1 kadd kmul ksub kopp kinv ksqrt kabs kis0 kleb kltb D pt rap eta wt cosAB obs res_fun n weight_ gap)
+                  (src_ep_inB K k0 k1 kadd kmul ksub kopp kinv ksqrt kabs kis0 kleb kltb D pt rap eta wt cosAB obs res_fun n weight_ gap) cosAB) evs)) =
+       Some r ->
+       gen_ep_resolution K k0 k1 kadd kmul ksub kopp kinv ksqrt kabs kis0 kleb kltb D pt rap eta wt cosAB obs res_fun n weight_ gap
+         (map
+            (fun e : FlowSP.event K D =>
+             qnorm K k0 kadd kmul kinv ksqrt kis0 D
+               (src_ep_pw K k0 k1 kadd kmul ksub kopp kinv ksqrt kabs kis0 kleb kltb D pt rap eta wt cosAB obs res_fun n weight_ gap)
+               (src_ep_inA K k0 k1 kadd kmul ksub kopp kinv ksqrt kabs kis0 kleb kltb D pt rap eta wt cosAB obs res_fun n weight_ gap) 
+               (snd e)) evs)
+         (map
+            (fun e : FlowSP.event K D =>
+             qnorm K k0 kadd kmul kinv ksqrt kis0 D
+               (src_ep_pw K k0 k1 kadd kmul ksub kopp kinv ksqrt kabs kis0 kleb kltb D pt rap eta wt cosAB obs res_fun n weight_ gap)
+               (src_ep_inB K k0 k1 kadd kmul ksub kopp kinv ksqrt kabs kis0 kleb kltb D pt rap eta wt cosAB obs res_fun n weight_ gap) 
+               (snd e)) evs) = r.
+Proof. exact source_ep_resolution. Qed.
+Print Assumptions C12_source_ep_resolution.
+
+(* EventPlaneFlow.__compute_flow_particles (first component) *)
+Theorem C12_source_ep_flow_particles :
+  forall (K : Type) (k0 k1 : K) (kadd kmul ksub : K -> K -> K) (kopp kinv ksqrt kabs : K -> K) (kis0 : K -> bool) (kleb kltb : K -> K -> bool),
+       ring_theory k0 k1 kadd kmul ksub kopp eq ->
+       forall (D : Type) (pt rap eta : D -> K) (wt : D -> option K) (cosAB obs : cpx K -> cpx K -> K) (res_fun : K -> K) 
+         (n : nat) (weight_ : string) (gap : K) (sc : bool) (r : K) (evs : list (FlowSP.event K D)),
+       gen_ep_compute_flow_particles K k0 k1 kadd kmul ksub kopp kinv ksqrt kabs kis0 kleb kltb D pt rap eta wt cosAB obs res_fun n weight_ gap
+         (map fst evs)
+         (map
+            (map
+               (fun p : FlowRP.part K D =>
+                src_ep_pw K k0 k1 kadd kmul ksub kopp kinv ksqrt kabs kis0 kleb kltb D pt rap eta wt cosAB obs res_fun n weight_ gap (snd p)))
+            (map fst evs))
+         (map
+            (fun e : FlowSP.event K D =>
+             qfull K k0 kadd kmul D
+               (src_ep_pw K k0 k1 kadd kmul ksub kopp kinv ksqrt kabs kis0 kleb kltb D pt rap eta wt cosAB obs res_fun n weight_ gap) 
+               (snd e)) evs) (map (map fst) (map fst evs)) r sc =
+       ep_flow_values K k0 k1 kadd kmul ksub kopp kinv ksqrt kabs kis0 kleb kltb D pt rap eta wt cosAB obs res_fun n weight_ gap sc r evs.
+Proof. exact source_ep_flow_particles. Qed.
+Print Assumptions C12_source_ep_flow_particles.
+
+(* EventPlaneFlow.__calculate_flow_event_average (first two components) *)
+Theorem C12_source_ep_average :
+  forall (K : Type) (k0 k1 : K) (kadd kmul ksub : K -> K -> K) (kopp kinv ksqrt kabs : K -> K) (kis0 : K -> bool) (kleb kltb : K -> K -> bool),
+       ring_theory k0 k1 kadd kmul ksub kopp eq ->
+       forall (D : Type) (pt rap eta : D -> K) (wt : D -> option K) (cosAB obs : cpx K -> cpx K -> K) (res_fun : K -> K) 
+         (n : nat) (weight_ : string) (gap : K) (val : FlowSP.event K D -> FlowRP.part K D -> K) (evs : list (list (cpx K * D) * list (FlowRP.part K D))),
+       gen_ep_calculate_flow_event_average K k0 k1 kadd kmul ksub kopp kinv ksqrt kabs kis0 kleb kltb D pt rap eta wt cosAB obs res_fun n weight_ gap
+         (map fst evs) (map (fun e : FlowSP.event K D => map (val e) (fst e)) evs) =
+       avg_fin K k0 kmul ksub kinv ksqrt kis0
+         (sums K k0 kadd kmul
+            (map
+               (fun e : FlowSP.event K D =>
+                map
+                  (fun p : cpx K * D =>
+                   (src_ep_pwt K k0 k1 kadd kmul ksub kopp kinv ksqrt kabs kis0 kleb kltb D pt rap eta wt cosAB obs res_fun n weight_ gap (snd p),
+                    val e p)) (fst e)) evs)).
+Proof. exact source_ep_average. Qed.
+Print Assumptions C12_source_ep_average.
+
+(* EventPlaneFlow.differential_flow, body of the loop over the bins *)
+Theorem C12_source_ep_binning :
+  forall (K : Type) (k0 k1 : K) (kadd kmul ksub : K -> K -> K) (kopp kinv ksqrt kabs : K -> K) (kis0 : K -> bool) (kleb kltb : K -> K -> bool),
+       ring_theory k0 k1 kadd kmul ksub kopp eq ->
+       forall (D : Type) (pt rap eta : D -> K) (wt : D -> option K) (cosAB obs : cpx K -> cpx K -> K) (res_fun : K -> K) 
+         (n : nat) (weight_ : string) (gap : K) (sel : string) (lo hi : K) (evs : list (list (cpx K * D))),
+       gen_ep_bin_events K k0 k1 kadd kmul ksub kopp kinv ksqrt kabs kis0 kleb kltb D pt rap eta wt cosAB obs res_fun n weight_ gap sel lo hi evs =
+       map
+         (binned K D
+            (src_ep_inbin K k0 k1 kadd kmul ksub kopp kinv ksqrt kabs kis0 kleb kltb D pt rap eta wt cosAB obs res_fun n weight_ gap sel lo hi)) evs.
+Proof. exact source_ep_binning. Qed.
+Print Assumptions C12_source_ep_binning.
+
+(* EventPlaneFlow.integrated_flow (first two return values) *)
+Theorem C12_source_ep_integrated :
+  forall (K : Type) (k0 k1 : K) (kadd kmul ksub : K -> K -> K) (kopp kinv ksqrt kabs : K -> K) (kis0 : K -> bool) (kleb kltb : K -> K -> bool),
+       ring_theory k0 k1 kadd kmul ksub kopp eq ->
+       forall (D : Type) (pt rap eta : D -> K) (wt : D -> option K) (cosAB obs : cpx K -> cpx K -> K) (res_fun : K -> K) 
+         (n : nat) (weight_ : string) (gap : K) (sc : bool) (evs : list (FlowSP.event K D)) (v : K) (oe : option K),
+       ep_integrated K k0 k1 kadd kmul ksub kinv ksqrt kabs kis0 kltb D
+         (src_ep_pw K k0 k1 kadd kmul ksub kopp kinv ksqrt kabs kis0 kleb kltb D pt rap eta wt cosAB obs res_fun n weight_ gap)
+         (src_ep_pwt K k0 k1 kadd kmul ksub kopp kinv ksqrt kabs kis0 kleb kltb D pt rap eta wt cosAB obs res_fun n weight_ gap)
+         (src_ep_inA K k0 k1 kadd kmul ksub kopp kinv ksqrt kabs kis0 kleb kltb D pt rap eta wt cosAB obs res_fun n weight_ gap)
+         (src_ep_inB K k0 k1 kadd kmul ksub kopp kinv ksqrt kabs kis0 kleb kltb D pt rap eta wt cosAB obs res_fun n weight_ gap) cosAB obs res_fun sc
+         evs = (Some v, oe) ->
+       fst
+         (gen_ep_integrated_flow K k0 k1 kadd kmul ksub kopp kinv ksqrt kabs kis0 kleb kltb D pt rap eta wt cosAB obs res_fun n weight_ gap
+            (map fst evs) (map snd evs) sc) = v /\
+       (forall e : K,
+        oe = Some e ->
+        snd
+          (gen_ep_integrated_flow K k0 k1 kadd kmul ksub kopp kinv ksqrt kabs kis0 kleb kltb D pt rap eta wt cosAB obs res_fun n weight_ gap
+             (map fst evs) (map snd evs) sc) = e).
+Proof. exact source_ep_integrated. Qed.
+Print Assumptions C12_source_ep_integrated.
+
+(* EventPlaneFlow.differential_flow, one bin (first two return values) *)
+Theorem C12_source_ep_differential :
+  forall (K : Type) (k0 k1 : K) (kadd kmul ksub : K -> K -> K) (kopp kinv ksqrt kabs : K -> K) (kis0 : K -> bool) (kleb kltb : K -> K -> bool),
+       ring_theory k0 k1 kadd kmul ksub kopp eq ->
+       forall (D : Type) (pt rap eta : D -> K) (wt : D -> option K) (cosAB obs : cpx K -> cpx K -> K) (res_fun : K -> K) 
+         (n : nat) (weight_ : string) (gap : K) (sel : string) (lo hi : K) (sc : bool) (evs : list (FlowSP.event K D)) (v : K) (oe : option K),
+       ep_differential_bin K k0 k1 kadd kmul ksub kinv ksqrt kabs kis0 kltb D
+         (src_ep_pw K k0 k1 kadd kmul ksub kopp kinv ksqrt kabs kis0 kleb kltb D pt rap eta wt cosAB obs res_fun n weight_ gap)
+         (src_ep_pwt K k0 k1 kadd kmul ksub kopp kinv ksqrt kabs kis0 kleb kltb D pt rap eta wt cosAB obs res_fun n weight_ gap)
+         (src_ep_inA K k0 k1 kadd kmul ksub kopp kinv ksqrt kabs kis0 kleb kltb D pt rap eta wt cosAB obs res_fun n weight_ gap)
+         (src_ep_inB K k0 k1 kadd kmul ksub kopp kinv ksqrt kabs kis0 kleb kltb D pt rap eta wt cosAB obs res_fun n weight_ gap)
+         (src_ep_inbin K k0 k1 kadd kmul ksub kopp kinv ksqrt kabs kis0 kleb kltb D pt rap eta wt cosAB obs res_fun n weight_ gap sel lo hi) cosAB
+         obs res_fun sc evs = (Some v, oe) ->
+       fst
+         (gen_ep_differential_bin K k0 k1 kadd kmul ksub kopp kinv ksqrt kabs kis0 kleb kltb D pt rap eta wt cosAB obs res_fun n weight_ gap
+            (gen_ep_bin_events K k0 k1 kadd kmul ksub kopp kinv ksqrt kabs kis0 kleb kltb D pt rap eta wt cosAB obs res_fun n weight_ gap sel lo hi
+               (map fst evs)) (map snd evs) sc) = v /\
+       (forall e : K,
+        oe = Some e ->
+        snd
+          (gen_ep_differential_bin K k0 k1 kadd kmul ksub kopp kinv ksqrt kabs kis0 kleb kltb D pt rap eta wt cosAB obs res_fun n weight_ gap
+             (gen_ep_bin_events K k0 k1 kadd kmul ksub kopp kinv ksqrt kabs kis0 kleb kltb D pt rap eta wt cosAB obs res_fun n weight_ gap sel lo hi
+                (map fst evs)) (map snd evs) sc) = e).
+Proof. exact source_ep_differential. Qed.
+Print Assumptions C12_source_ep_differential.
+
+(* executable instance Model/FlowQ.v: particle.weight with NaN -> 1 *)
+Theorem C12_source_q_rp_weight :
+  forall (cosAB obs : cpx Q -> cpx Q -> Q) (res_fun : Q -> Q) (weight : string) (n : nat) (gap : Q) (u : cpx Q) (d : fdata),
+       fpwt d =
+       gen_rp_weight Q 0%Q 1%Q rplus rmult rminus Qopp qinv qsqrt qabs qis0 Qle_bool qltb fdata dpt dy deta dw cosAB obs res_fun n weight gap (u, d).
+Proof. exact source_q_rp_weight. Qed.
+Print Assumptions C12_source_q_rp_weight.
+
+Theorem C12_source_q_sp_weight :
+  forall (cosAB obs : cpx Q -> cpx Q -> Q) (res_fun : Q -> Q) (weight : string) (n : nat) (gap : Q) (u : cpx Q) (d : fdata),
+       fpwt d =
+       gen_sp_weight Q 0%Q 1%Q rplus rmult rminus Qopp qinv qsqrt qabs qis0 Qle_bool qltb fdata dpt dy deta dw cosAB obs res_fun n weight gap (u, d).
+Proof. exact source_q_sp_weight. Qed.
+Print Assumptions C12_source_q_sp_weight.
+
+Theorem C12_source_q_ep_weight :
+  forall (cosAB obs : cpx Q -> cpx Q -> Q) (res_fun : Q -> Q) (weight : string) (n : nat) (gap : Q) (u : cpx Q) (d : fdata),
+       fpwt d =
+       gen_ep_weight Q 0%Q 1%Q rplus rmult rminus Qopp qinv qsqrt qabs qis0 Qle_bool qltb fdata dpt dy deta dw cosAB obs res_fun n weight gap (u, d).
+Proof. exact source_q_ep_weight. Qed.
+Print Assumptions C12_source_q_ep_weight.
+
+(* executable instance: weight name -> expression (pT, pT**2, pT**n, rapidity, pseudorapidity, else 0) *)
+Theorem C12_source_q_sp_particle_weight :
+  forall (cosAB obs : cpx Q -> cpx Q -> Q) (res_fun : Q -> Q) (weight : string) (n : nat) (gap : Q) (u : cpx Q) (d : fdata),
+       fpw weight n d =
+       gen_sp_particle_weight Q 0%Q 1%Q rplus rmult rminus Qopp qinv qsqrt qabs qis0 Qle_bool qltb fdata dpt dy deta dw cosAB obs res_fun n weight gap
+         (u, d).
+Proof. exact source_q_sp_particle_weight. Qed.
+Print Assumptions C12_source_q_sp_particle_weight.
+
+Theorem C12_source_q_ep_particle_weight :
+  forall (cosAB obs : cpx Q -> cpx Q -> Q) (res_fun : Q -> Q) (weight : string) (n : nat) (gap : Q) (u : cpx Q) (d : fdata),
+       fpw weight n d =
+       gen_ep_particle_weight Q 0%Q 1%Q rplus rmult rminus Qopp qinv qsqrt qabs qis0 Qle_bool qltb fdata dpt dy deta dw cosAB obs res_fun n weight gap
+         (u, d).
+Proof. exact source_q_ep_particle_weight. Qed.
+Print Assumptions C12_source_q_ep_particle_weight.
+
+(* executable instance: the sub-event tests *)
+Theorem C12_source_q_sp_subevents :
+  forall (cosAB obs : cpx Q -> cpx Q -> Q) (res_fun : Q -> Q) (weight : string) (n : nat) (gap : Q) (u : cpx Q) (d : fdata),
+       finA gap d =
+       gen_sp_in_A Q 0%Q 1%Q rplus rmult rminus Qopp qinv qsqrt qabs qis0 Qle_bool qltb fdata dpt dy deta dw cosAB obs res_fun n weight gap (u, d) /\
+       finB gap d =
+       gen_sp_in_B Q 0%Q 1%Q rplus rmult rminus Qopp qinv qsqrt qabs qis0 Qle_bool qltb fdata dpt dy deta dw cosAB obs res_fun n weight gap (u, d).
+Proof. exact source_q_sp_subevents. Qed.
+Print Assumptions C12_source_q_sp_subevents.
+
+Theorem C12_source_q_ep_subevents :
+  forall (cosAB obs : cpx Q -> cpx Q -> Q) (res_fun : Q -> Q) (weight : string) (n : nat) (gap : Q) (u : cpx Q) (d : fdata),
+       finA gap d =
+       gen_ep_in_A Q 0%Q 1%Q rplus rmult rminus Qopp qinv qsqrt qabs qis0 Qle_bool qltb fdata dpt dy deta dw cosAB obs res_fun n weight gap (u, d) /\
+       finB gap d =
+       gen_ep_in_B Q 0%Q 1%Q rplus rmult rminus Qopp qinv qsqrt qabs qis0 Qle_bool qltb fdata dpt dy deta dw cosAB obs res_fun n weight gap (u, d).
+Proof. exact source_q_ep_subevents. Qed.
+Print Assumptions C12_source_q_ep_subevents.
+
+(* executable instance: selector dispatch and lo <= val < hi *)
+Theorem C12_source_q_inbin :
+  forall (cosAB obs : cpx Q -> cpx Q -> Q) (res_fun : Q -> Q) (weight : string) (n : nat) (gap : Q) (sel : string) (lo hi : Q) 
+         (u : cpx Q) (d : fdata),
+       finbin sel lo hi d =
+       gen_rp_in_bin Q 0%Q 1%Q rplus rmult rminus Qopp qinv qsqrt qabs qis0 Qle_bool qltb fdata dpt dy deta dw cosAB obs res_fun n weight gap sel lo hi
+         (u, d) /\
+       finbin sel lo hi d =
+       gen_sp_in_bin Q 0%Q 1%Q rplus rmult rminus Qopp qinv qsqrt qabs qis0 Qle_bool qltb fdata dpt dy deta dw cosAB obs res_fun n weight gap sel lo hi
+         (u, d) /\
+       finbin sel lo hi d =
+       gen_ep_in_bin Q 0%Q 1%Q rplus rmult rminus Qopp qinv qsqrt qabs qis0 Qle_bool qltb fdata dpt dy deta dw cosAB obs res_fun n weight gap sel lo hi
+         (u, d).
+Proof. exact source_q_inbin. Qed.
+Print Assumptions C12_source_q_inbin.
+
+(* constructor defaults (n, pseudorapidity_gap), constructor guards and the default of self_corr *)
+Theorem C12_source_defaults :
+  gen_rp_default_n = 2%Z /\ gen_sp_default_n = 2%Z /\ gen_ep_default_n = 2%Z /\
+  (gen_sp_default_gap == 0)%Q /\ (gen_ep_default_gap == 0)%Q /\
+  gen_sp_default_self_corr_integrated = true /\ gen_sp_default_self_corr_differential = true /\
+  gen_ep_default_self_corr_integrated = true /\ gen_ep_default_self_corr_differential = true /\
+  gen_rp_ctor_rejects = [("n", "LtE", 0%Z)]%string /\
+  gen_sp_ctor_rejects = [("n", "LtE", 0%Z); ("pseudorapidity_gap", "Lt", 0%Z)]%string /\
+  gen_ep_ctor_rejects = [("n", "LtE", 0%Z); ("pseudorapidity_gap", "Lt", 0%Z)]%string.
+Proof. exact source_defaults. Qed.
+Print Assumptions C12_source_defaults.
+
+(* non-vacuity of the hypotheses of C12_source_sp_integrated: a concrete sample with a finite value and a finite error *)
+Theorem C12_source_example :
+  exists v e,
+    sp_integrated Z 0%Z 1%Z Z.add Z.mul Z.sub Z.opp (fun x => x) (fun x => x) Z.abs (Z.eqb 0) Z.ltb Z
+      (src_sp_pw Z 0%Z 1%Z Z.add Z.mul Z.sub Z.opp (fun x => x) (fun x => x) Z.abs (Z.eqb 0) Z.leb Z.ltb Z (fun d => d) (fun d => d) (fun d => d)
+         (fun _ => None) (fun _ _ => 0%Z) (fun _ _ => 0%Z) (fun x => x) 2 "pT" 0%Z)
+      (src_sp_pwt Z 0%Z 1%Z Z.add Z.mul Z.sub Z.opp (fun x => x) (fun x => x) Z.abs (Z.eqb 0) Z.leb Z.ltb Z (fun d => d) (fun d => d) (fun d => d)
+         (fun _ => None) (fun _ _ => 0%Z) (fun _ _ => 0%Z) (fun x => x) 2 "pT" 0%Z)
+      (src_sp_inA Z 0%Z 1%Z Z.add Z.mul Z.sub Z.opp (fun x => x) (fun x => x) Z.abs (Z.eqb 0) Z.leb Z.ltb Z (fun d => d) (fun d => d) (fun d => d)
+         (fun _ => None) (fun _ _ => 0%Z) (fun _ _ => 0%Z) (fun x => x) 2 "pT" 0%Z)
+      (src_sp_inB Z 0%Z 1%Z Z.add Z.mul Z.sub Z.opp (fun x => x) (fun x => x) Z.abs (Z.eqb 0) Z.leb Z.ltb Z (fun d => d) (fun d => d) (fun d => d)
+         (fun _ => None) (fun _ _ => 0%Z) (fun _ _ => 0%Z) (fun x => x) 2 "pT" 0%Z)
+      true ex_evs = (Some v, Some e)
+    /\ gen_sp_integrated_flow Z 0%Z 1%Z Z.add Z.mul Z.sub Z.opp (fun x => x) (fun x => x) Z.abs (Z.eqb 0) Z.leb Z.ltb Z (fun d => d) (fun d => d)
+         (fun d => d) (fun _ => None) (fun _ _ => 0%Z) (fun _ _ => 0%Z) (fun x => x) 2 "pT" 0%Z (map fst ex_evs) (map snd ex_evs) true = (v, e).
+Proof. exact source_example. Qed.
+Print Assumptions C12_source_example.
